@@ -512,6 +512,10 @@ fn state_sensitive_inputs(cfg: &RunCfg) -> Vec<(String, Vec<String>)> {
         ));
     }
     out.push((
+        "named-numbers".into(),
+        vec!["Nn-Mod DEFINITIONS AUTOMATIC TAGS ::= BEGIN\nLevel ::= INTEGER { lo(1), hi(200) }\nWindow ::= Level (lo..hi)\nCol ::= ENUMERATED { red(3), green(7) }\ncol Col ::= green\nS ::= SEQUENCE { f INTEGER { k(5) } (0..k), g Level DEFAULT hi }\nmax-v INTEGER ::= 60\nT ::= OCTET STRING (SIZE (1..max-v))\nEND\n".into()],
+    ));
+    out.push((
         "object-set-parameters".into(),
         vec!["Pr-Mod DEFINITIONS AUTOMATIC TAGS ::= BEGIN\nEXT ::= CLASS { &id INTEGER UNIQUE, &Type } WITH SYNTAX { ID &id TYPE &Type }\nPair { EXT : SetA, EXT : SetB } ::= SEQUENCE {\n  idA EXT.&id ({SetA}),\n  valA EXT.&Type ({SetA}{@idA}),\n  idB EXT.&id ({SetB}),\n  valB EXT.&Type ({SetB}{@idB})\n}\nImpl ::= Pair { {SetB}, {Other} }\nImpl2 ::= Pair { {Other}, {SetB} }\nSetB EXT ::= { { ID 1 TYPE INTEGER } }\nOther EXT ::= { { ID 2 TYPE BOOLEAN } | { ID 3 TYPE NULL } }\nEND\n".into()],
     ));
@@ -520,6 +524,32 @@ fn state_sensitive_inputs(cfg: &RunCfg) -> Vec<(String, Vec<String>)> {
         let mut g = Gen { rng: &mut rng, info_objects: true };
         let m = g.module(&format!("St{k}"), &format!("{k}x9"), 4 + k % 12);
         out.push((format!("generated-{k}"), vec![m.text()]));
+    }
+    out
+}
+
+/// every decimal literal n -> n + 1 (names untouched)
+fn bump_numbers(t: &str) -> String {
+    let mut out = String::new();
+    let cs: Vec<char> = t.chars().collect();
+    let mut i = 0;
+    while i < cs.len() {
+        let prev_ident = i > 0 && (cs[i - 1].is_alphanumeric() || cs[i - 1] == '-' || cs[i - 1] == '_');
+        if cs[i].is_ascii_digit() && !prev_ident {
+            let mut j = i;
+            while j < cs.len() && cs[j].is_ascii_digit() {
+                j += 1;
+            }
+            let lit: String = cs[i..j].iter().collect();
+            match lit.parse::<u128>() {
+                Ok(v) if j == cs.len() || !(cs[j].is_alphabetic()) => out.push_str(&(v + 1).to_string()),
+                _ => out.push_str(&lit),
+            }
+            i = j;
+        } else {
+            out.push(cs[i]);
+            i += 1;
+        }
     }
     out
 }
@@ -557,6 +587,11 @@ fn process_state(cfg: &RunCfg, rep: &mut Report, only: Option<(&str, bool)>) {
             let case = json!({"state_input": label, "opaque_open_types": opaque, "sources": srcs});
             let mk = move || rasn_compiler::prelude::RasnConfig { opaque_open_types: opaque, ..Default::default() };
             let mut results: Vec<(String, Canon)> = Vec::new();
+            // first a twin of the input in which every number is another one (same names, other content): whatever
+            // the compiler remembers under a name must not survive into the next compilation
+            let twin: Vec<String> = srcs.iter().map(|t| bump_numbers(t)).collect();
+            let _ = compile_rasn_cfg(&twin, mk());
+            results.push(("after compiling a twin with the same names and other numbers, same thread".into(), canon(&compile_rasn_cfg(srcs, mk()))));
             for r in 0..12 {
                 results.push((format!("repetition {r} in the long-lived process"), canon(&compile_rasn_cfg(srcs, mk()))));
             }
